@@ -350,6 +350,10 @@ class Result:
         self.exhaustive = False
         self.rule = ""
         self.assumptions = []
+        os.makedirs(REPLAY, exist_ok=True)
+        for f in os.listdir(REPLAY):
+            if f.startswith(prop + "_"):
+                os.remove(os.path.join(REPLAY, f))
 
     def add_tlc(self, res):
         self.states += res["distinct"]
@@ -526,4 +530,44 @@ def validate_records(module, cfg, recs, prop, res, nshards=16, extra_env=None, t
     if len(verdicts) != len(recs):
         raise Machinery(f"{module}: {len(verdicts)} verdicts for {len(recs)} records")
     shutil.rmtree(sc, ignore_errors=True)
+    return verdicts
+
+
+def validate_groups(recs, prop, res, nshards=16, timeout=1800):
+    """Trace_Groups: records sharing `grp` must agree (first run fixes the outcome). Returns {grp: (clauses, failed)}."""
+    for r in recs:
+        r.setdefault("cmp", [1, 1])
+        r.setdefault("skip", False)
+        r.setdefault("timeout", False)
+    groups = {}
+    for r in recs:
+        groups.setdefault(r["grp"], []).append(r)
+    glist = list(groups.values())
+    sc = scratch_dir()
+    files = []
+    for i, sh in enumerate(shard(glist, nshards)):
+        p = os.path.join(sc, f"g{i}.ndjson")
+        write_ndjson(p, [r for g in sh for r in g])
+        files.append(p)
+    rs = run_shards("Trace_Groups", "Groups.cfg", files, {"VERIF_PROP": prop}, timeout=timeout)
+    verdicts = {}
+    for r in rs:
+        if not tlc_ok(r):
+            raise Machinery("TLC failed on Trace_Groups: " + r["stdout"][-3000:])
+        res.add_tlc(r)
+        for v in extract_tagged(r["stdout"], tags=("VERDICT",)):
+            verdicts[v[1]] = (setlist(v[2]), setlist(v[3]))
+    if len(verdicts) != len(groups):
+        raise Machinery(f"Trace_Groups: {len(verdicts)} verdicts for {len(groups)} groups")
+    shutil.rmtree(sc, ignore_errors=True)
+    byid = {r["id"]: r for r in recs}
+    for g, (cl, failed) in verdicts.items():
+        res.traces += 1
+        for c in cl:
+            res.clause(c, 1, 1 if any(f[0] == c for f in failed) else 0)
+        for (c, rid) in failed:
+            rec = dict(byid[rid])
+            first = min(groups[g], key=lambda r: r["id"])
+            res.violation(c, rec, {"reference_run": {k: first.get(k) for k in
+                                   ("id", "opt", "wt", "num", "den", "solved", "routes", "weights", "obj", "mode", "ign", "escale")}})
     return verdicts
